@@ -87,6 +87,8 @@ fn uri_class(u: &str) -> &'static str {
         "git"
     } else if !u.starts_with("file:///") {
         "odd-scheme"
+    } else if u.contains("/nest/") || u.ends_with("/loose") {
+        "nested-document-path"
     } else if u.contains("/loose/") {
         "loose-file"
     } else if u.ends_with("gleam.toml") {
@@ -261,6 +263,21 @@ impl Model {
                 }
                 self.states.insert(uri.clone(), s);
                 self.open.insert(uri.clone());
+                // Opening a document may make the server discover (and load from disk) the
+                // package or directory around it. Documents the client maintains keep their
+                // text; one the server has (possibly) forgotten after an inapplicable edit, or
+                // that the client closed, is a file on disk like any other and may be read.
+                let others: Vec<String> = self.states.keys().filter(|u| *u != uri).cloned().collect();
+                for o in others {
+                    let cur = self.get(&o);
+                    if !self.open.contains(&o) || cur.contains(&St::Forgotten) {
+                        if let Some(t) = uri_path(&o).and_then(|p| self.disk.get(&p)) {
+                            let mut cur = cur;
+                            cur.insert(St::Text(t.replace('\r', "")));
+                            self.states.insert(o, cur);
+                        }
+                    }
+                }
             }
             Op::Change { uri, changes } => {
                 let mut cur = self.get(uri);
@@ -431,7 +448,22 @@ fn gen_sequence(r: &mut Rng, env: &Env, hostile: bool) -> Vec<Op> {
     }
     let ndocs = r.range(1, 3);
     r.shuffle(&mut uris);
-    let docs: Vec<String> = uris[..ndocs.min(uris.len())].to_vec();
+    let mut docs: Vec<String> = uris[..ndocs.min(uris.len())].to_vec();
+    if hostile && r.chance(1, 6) {
+        // document paths nested in one another: a document whose path is a proper ancestor
+        // of another document's path (nothing of it exists on disk), or an existing directory
+        let outer = file_uri(&env.root.join("nest/doc.gleam").display().to_string());
+        let inner = file_uri(&env.root.join("nest/doc.gleam/inner.gleam").display().to_string());
+        let dir = file_uri(&env.root.join("loose").display().to_string());
+        docs = match r.below(3) {
+            0 => vec![inner, outer],
+            1 => vec![outer, inner],
+            _ => vec![file_uri(&env.root.join("loose/free.gleam").display().to_string()), dir],
+        };
+        if r.chance(1, 2) {
+            docs.push(p("src/a.gleam"));
+        }
+    }
     // the generator's own belief of each document's text (to aim positions at)
     let mut belief: BTreeMap<String, Doc> = BTreeMap::new();
     let mut ops = Vec::new();
@@ -896,7 +928,29 @@ fn gen_race_request(r: &mut Rng, uri: &str, doc: &Doc, di: usize) -> ReqT {
     let p = ps[r.below(ps.len())];
     let td = json!({"uri": uri});
     let pos = json!({"line": p.line, "character": p.col});
-    let (method, params): (&'static str, Value) = match r.below(10) {
+    // every request kind the server routes to a snapshot task
+    let (method, params): (&'static str, Value) = match r.below(14) {
+        10 | 11 => {
+            // signature help has a non-null answer only inside a call's argument list:
+            // aim at the character after a `(` or `,` half of the time
+            let mut q = p;
+            if r.chance(1, 2) {
+                let cands: Vec<Pos> = ps.iter().copied().filter(|c| {
+                    let off = doc.offset_of(*c).unwrap_or(0);
+                    off > 0 && matches!(doc.text.as_bytes()[off - 1], b'(' | b',')
+                }).collect();
+                if !cands.is_empty() {
+                    q = cands[r.below(cands.len())];
+                }
+            }
+            ("textDocument/signatureHelp", json!({"textDocument":td,"position":{"line": q.line, "character": q.col}}))
+        }
+        12 => ("glas/syntaxTree", json!({"textDocument":td})),
+        13 => {
+            let a = ps[r.below(ps.len())];
+            let (s0, e0) = if (a.line, a.col) <= (p.line, p.col) { (a, p) } else { (p, a) };
+            ("textDocument/semanticTokens/range", json!({"textDocument":td,"range":{"start":{"line":s0.line,"character":s0.col},"end":{"line":e0.line,"character":e0.col}}}))
+        }
         0 => ("textDocument/hover", json!({"textDocument":td,"position":pos})),
         1 | 2 => ("textDocument/definition", json!({"textDocument":td,"position":pos})),
         3 | 4 => ("textDocument/references", json!({"textDocument":td,"position":pos,"context":{"includeDeclaration":true}})),
@@ -1304,6 +1358,13 @@ fn run_c17(args: &Args) -> Report {
         // packages (another copy, other modules).
         // A path dependency has registry dependencies of its own (the usual monorepo: app and
         // lib both use the same library; everything is fetched into the ROOT's build/packages).
+        // the path dependency lives beside the root (`../pathdep`) or inside it (`libs/pathdep`:
+        // its files are then under two package roots and belong to the innermost one)
+        let nested_path = has_path && cr.chance(1, 2);
+        let pathdep_dir = if nested_path { root.join("libs/pathdep") } else { base.join("ws/pathdep") };
+        if nested_path {
+            rep.see("layouts", "path-dependency-nested-inside-the-root-package");
+        }
         let private_copy = has_path && cr.chance(1, 3);
         if has_path {
             let mut deps: Vec<String> = reg_names.iter().filter(|_| cr.chance(1, 2)).cloned().collect();
@@ -1313,10 +1374,10 @@ fn run_c17(args: &Args) -> Report {
             if !deps.is_empty() {
                 rep.see("layouts", "path-dependency-with-registry-dependencies");
             }
-            pkgs.push(TPkg { key: "pathdep".into(), name: "pathdep".into(), dir: base.join("ws/pathdep"), local: true, deps, path_deps: vec![], modules: vec![] });
+            pkgs.push(TPkg { key: "pathdep".into(), name: "pathdep".into(), dir: pathdep_dir.clone(), local: true, deps, path_deps: vec![], modules: vec![] });
             if private_copy {
                 rep.see("layouts", "path-dependency-with-private-copy-of-a-registry-package");
-                pkgs.push(TPkg { key: format!("{}@pathdep", reg_names[0]), name: reg_names[0].clone(), dir: base.join("ws/pathdep/build/packages").join(&reg_names[0]), local: false, deps: vec![], path_deps: vec![], modules: vec![] });
+                pkgs.push(TPkg { key: format!("{}@pathdep", reg_names[0]), name: reg_names[0].clone(), dir: pathdep_dir.join("build/packages").join(&reg_names[0]), local: false, deps: vec![], path_deps: vec![], modules: vec![] });
             }
         }
         // modules: 1-3 per package from a small pool (equal names across packages happen), root gets a test/ module too
@@ -1365,7 +1426,7 @@ fn run_c17(args: &Args) -> Report {
                 toml.push_str(&format!("{d} = \"~> 1.0\"\n"));
             }
             for d in &p.path_deps {
-                toml.push_str(&format!("{d} = {{ path = \"../{d}\" }}\n"));
+                toml.push_str(&format!("{d} = {{ path = \"{}{d}\" }}\n", if nested_path { "libs/" } else { "../" }));
             }
             std::fs::write(p.dir.join("gleam.toml"), toml).unwrap();
             for (m, dirname) in &p.modules {
@@ -1512,7 +1573,7 @@ fn run_c17(args: &Args) -> Report {
                 toml.push_str(&format!("{d} = \"~> 1.0\"\n"));
             }
             for d in &p0.path_deps {
-                toml.push_str(&format!("{d} = {{ path = \"../{d}\" }}\n"));
+                toml.push_str(&format!("{d} = {{ path = \"{}{d}\" }}\n", if nested_path { "libs/" } else { "../" }));
             }
             std::fs::write(p0.dir.join("gleam.toml"), toml).unwrap();
             s.notify("workspace/didChangeWatchedFiles", json!({"changes":[{"uri": file_uri(&p0.dir.join("gleam.toml").display().to_string()), "type": 2}]}));
